@@ -460,6 +460,7 @@ def parse_blocks_stable(
             block = handler(cell_grid, origin=origin, fixer=fixer)
         except ValueError as e:
             issue_tracker.add_error(str(e), load_location=origin.input_location)
+            return
 
         if block is not None:
             yield block_type, block
